@@ -184,6 +184,54 @@ def peer_over_the_wire(ctx, addr):
             ctx.traces_validated += 1
 
 
+def peer_discovery(ctx, thorough):
+    """PeerFetch.tla: which peers the RPC loop asks, and what it stores (model-checked; the deviations 'answer stored under the
+    key the peer filed it under' and 'hello age not looked at' are refuted).  Bound to the code where it can run here: the
+    discovery table emitted by TLC (hello ages per peer -> listed / kept) against the real rpcServers(), and the decoder's
+    request hand-over: 64 data sets of unknown templates with nobody reading the request queue all return, one request waits."""
+    import os
+    from props import c10
+    ctx.tlc_model("PeerFetch", "PeerFetch.cfg" if thorough else "PeerFetchQuick.cfg", workers=8 if thorough else 4, timeout=1800)
+    ctx.tlc_must_fail("PeerFetch", "PeerFetchKey.cfg", expect="AnswerIsPeers", workers=2)
+    ctx.tlc_must_fail("PeerFetch", "PeerFetchStale.cfg", expect="AskedWereLive", workers=2)
+    r = ctx.tlc_model("PeerFetch", "PeerFetchDisc.cfg", want_cases=True, workers=1)
+    cases = [c for c in r.cases if "ages" in c]
+    if len(cases) < 100:
+        raise vlib.Infra("PeerFetch: %d discovery cases emitted" % len(cases))
+    addr = {"p1": "192.0.2.%d" % (10 + ctx.seed % 200), "p2": "2001:db8::%x" % (1 + ctx.seed % 60000), "p3": "10.%d.0.1" % (ctx.seed % 250)}
+    d = ctx.subdir("c04disc")
+    with open(os.path.join(d, "disc.json"), "w") as fh:
+        json.dump([{addr[p]: a for p, a in c["ages"].items()} for c in cases], fh)
+    drv = c10.build(ctx, "ipfix", race=False)
+    out = os.path.join(d, "out.json")
+    rc, log, to = ctx.go_run(drv, "TestVerifDiscovery", timeout=300, env={"VERIF_OUT": out, "VERIF_DISC": os.path.join(d, "disc.json")})
+    if to or rc != 0 or not os.path.exists(out):
+        raise vlib.Infra("discovery driver failed:\n" + log[-1500:])
+    res = json.load(open(out))
+    for c, got in zip(cases, res["cases"]):
+        ctx.count(["peer-discovery", sorted(c["ages"].items())])
+        if got["took_s"] > 1:
+            continue        # the clock moved by more than the margin the ages leave (298 / 302 around the limit of 300)
+        want = sorted(addr[p] for p in c["listed"])
+        if (got["listed"] or []) != want or (got["kept"] or []) != want or (got["again"] or []) != want:
+            ctx.violation("peer discovery: with last hellos %s seconds old, the peers to ask are %s and only they are remembered; rpcServers() "
+                          "listed %s, kept %s, listed %s when asked again"
+                          % ({addr[p]: a for p, a in c["ages"].items()}, want, got["listed"], got["kept"], got["again"]),
+                          {"ages": c["ages"]}, key="peer:discovery")
+            break
+    else:
+        ctx.traces_validated += len(cases)
+    if res["returned"] != 64:
+        ctx.violation("IPFIX: data sets of unknown templates while nobody reads the peer-request queue: the decoder must return at once "
+                      "(NeverWaits); %s" % ("it did not return within 60 s" if res["returned"] < 0 else "%d of 64 returned" % res["returned"]),
+                      {}, key="peer:request-blocks")
+    elif res["waiting"] != 1 or res["first_id"] != 400 or res["first_ip"] != "10.9.9.144":
+        ctx.violation("IPFIX: after 64 data sets of unknown templates with nobody reading the request queue, exactly one request waits - the "
+                      "first one, for (10.9.9.144, 400) (OneRequest); found %d waiting, the first for (%s, %d)"
+                      % (res["waiting"], res["first_ip"], res["first_id"]), {}, key="peer:request-queue")
+    ctx.extra["peer_discovery"] = {"cases": len(cases), "request_queue": {k: res[k] for k in ("returned", "waiting", "first_id", "first_ip")}}
+
+
 def long_running(ctx):
     """'all sequences of announcements': a long one - three exporters that have each used their whole template id range
     (195 840 templates), then 300 re-announcements with another layout; every announced pair is asked for by a data set and
@@ -453,6 +501,7 @@ def check(ctx):
     peer_over_the_wire(ctx, a4)
     colliding_first_announcements(ctx, thorough)
     long_running(ctx)
+    peer_discovery(ctx, thorough)
     # ---- B: interleaved multi-exporter histories validated by the reference collector
     for proto in ("ipfix", "v9"):
         drv = codec.driver(ctx, proto)
